@@ -138,7 +138,7 @@ func cmdRegoCheck(args []string) {
 }
 
 // runPaths checks every path expression in every generator mode.
-func runPaths(work string, paths []regosym.Path, modes []string, nFor func(regosym.Path) int, slots, workers int) ([]regosym.Outcome, error) {
+func runPaths(work string, paths []regosym.Path, modes []string, nFor func(regosym.Path) int, slots, workers int, known map[string]bool) ([]regosym.Outcome, error) {
 	drv, err := regosym.BuildDriver(repoDir, verifDir(), work)
 	if err != nil {
 		return nil, err
@@ -192,7 +192,7 @@ func runPaths(work string, paths []regosym.Path, modes []string, nFor func(regos
 				return
 			}
 			defer s.Close()
-			c := &regosym.Checker{Drv: drv, Solver: s}
+			c := &regosym.Checker{Drv: drv, Solver: s, KnownPath: known[regosym.KnownPathClass]}
 			for i := range ch {
 				j := jobsl[i]
 				if gens[i].Error != "" {
@@ -226,7 +226,7 @@ func cmdRegoPaths(args []string) {
 		}
 	}
 	t0 := time.Now()
-	outs, err := runPaths(work, paths, []string{"set", "nodes", "array"}, func(regosym.Path) int { return n }, 2, 16)
+	outs, err := runPaths(work, paths, []string{"set", "nodes", "array"}, func(regosym.Path) int { return n }, 2, 16, map[string]bool{regosym.KnownPathClass: true})
 	if err != nil {
 		fmt.Fprintln(os.Stderr, err)
 		os.Exit(2)
